@@ -572,9 +572,9 @@ class MPBFixedContext(SizedContext):
                         else:
                             result = Float(x=self.inf_value, ctx=self)
                     else:
-                        result = self.maxval(xr.s)
+                        result = self._bound(xr.s)
                 case OverflowMode.SATURATE:
-                    result = self.maxval(s=xr.s)
+                    result = self._bound(xr.s)
                 case OverflowMode.WRAP:
                     ord_abs = self._fmt._mp_fmt.to_ordinal(Float(x=xr)) - self._fmt._neg_maxval_ord
                     total_ord = self._fmt._pos_maxval_ord - self._fmt._neg_maxval_ord + 1
@@ -595,6 +595,14 @@ class MPBFixedContext(SizedContext):
             return Float(x=xr, s=False, ctx=self)
         else:
             return Float(x=xr, ctx=self)
+
+    def _bound(self, s: bool) -> Float:
+        """The end of the range an overflow of sign `s` saturates to.  Unlike
+        `maxval(True)` this also answers for a range without negative values,
+        whose lower end is zero."""
+        if s and not self.neg_maxval.is_negative():
+            return Float(x=self.neg_maxval, s=self.enable_neg_zero and self.neg_maxval.s, ctx=self)
+        return self.maxval(s)
 
     def round(self, x, *, exact: bool = False):
         x = self._round_prepare(x)
